@@ -68,7 +68,7 @@ def configs(tier, seed):
     return cfgs
 
 
-def zero_obligations(V, T, model, dom, attrs, N, zspec, tag):
+def zero_obligations(V, T, model, dom, attrs, N, zspec, tag, bulk=False):
     declared = []
     for key, cells in zspec.items():
         for cell in cells:
@@ -96,6 +96,20 @@ def zero_obligations(V, T, model, dom, attrs, N, zspec, tag):
                 a = dict(zip(F.domain.attrs, idx))
                 if all(a[k] == c for k, c in zip(key, cell)):
                     T.append(("%sproject(%s)%s is 0 (declared %s=%s)" % (tag, ",".join(S), "".join(map(str, idx)), "".join(key), cell), g, 0.0))
+    # the bulk query path
+    if bulk:
+        want = [S for S in common.all_ordered_subsets(attrs, minlen=1, maxlen=2)]
+        ans = model.calculate_many_marginals(want)
+        for S in want:
+            F = ans[S]
+            if tuple(sorted(S)) == tuple(S):
+                T.append(("%sbulk(%s) sums to total" % (tag, ",".join(S)), F.sum(), N))
+            for key, cell in declared:
+                if set(key) <= set(S):
+                    for idx, g in common.factor_cells(F):
+                        a = dict(zip(F.domain.attrs, idx))
+                        if all(a[k] == c for k, c in zip(key, cell)):
+                            T.append(("%sbulk(%s)%s is 0 (declared %s=%s)" % (tag, ",".join(S), "".join(map(str, idx)), "".join(key), cell), g, 0.0))
     dv = model.datavector()
     T.append((tag + "datavector sums to total", V.sum(list(dv)), N))
     for i, x in enumerate(itertools.product(*[range(n) for n in dom.shape])):
@@ -120,7 +134,7 @@ def scenario_for(cfg):
             ms = estim.measurements(V, dom, estim.FAMS[cfg["fam"]])
             name, opts = estim.solver_options(V, cfg["solver"])
             model = eng.estimate(ms, total=N, engine=name, options=opts)
-            zero_obligations(V, T, model, dom, attrs, N, zspec, "")
+            zero_obligations(V, T, model, dom, attrs, N, zspec, "", bulk=(cfg["iters"] == 1))
             if cfg["iters"] == 1 or cfg["solver"].startswith("MD"):
                 # coherence of the returned pair is C08's subject; it is repeated here only where it is cheap
                 estim.model_answers(V, T, model, dom, attrs, N, "valid:", tuples=[("a",), ("b", "c"), ("a", "c")])
